@@ -22,7 +22,9 @@ connections reach ActivePeers::add / a request handler only via handle_connectin
 value originates from wire::handshake; the id returned to the caller is Connection::peer_id() of the
 registered connection and add_peer dominates the reply; inside add_peer every path to return passes
 ActivePeers::add(own id, the connection handed in) and add_peer never closes a connection itself, so
-"answered Ok" implies the reached peer is (or already was) in the connected set.
+"answered Ok" implies the reached peer is (or already was) in the connected set - every returning path of
+ActivePeersInner::add leaves an entry for that peer (C04.2a re-evaluated); the returned id is the key of the first
+(end-entity) certificate of that very connection (C01.7 re-evaluated).
 """
 TRUSTED = ["rustls calls the configured ServerCertVerifier for every handshake", "C01's chain (identity = verified key)"]
 NOT_DECIDED = ["datagram loss during the handshake", "timing of concurrent dials", "the impostor's cryptographic inability (trusted base of C01)"]
